@@ -181,3 +181,65 @@ def gen_routing_run(rng: Rng, mb, rid, sweep=False):
     random_sched(rng, run, est)
     run['budget'] = 5000 + 600 * total_ops
     return run
+
+
+# ------------------------------------------------------------------------------------------------ C09
+def gen_c09_runs(rng: Rng, mb, n):
+    """Exhaustive construction-fault enumeration {pump?} x {runtime?} x {0,1,2 user services}, then workloads in
+    the one world per origin in which construction must succeed (identity monitored on every dispatched event)."""
+    origin = mb.cfgspec['origin']
+    runs = []
+    for pump in (0, 1):
+        for runtime in (0, 1):
+            for svcs in (0, 1, 2):
+                run = new_run(f'loc{pump}{runtime}{svcs}', origin)
+                run['loc'] = {'pump': pump, 'runtime': runtime, 'svcs': svcs}
+                run['clients'] = 1 if mb.mc else 0
+                run['policy'] = POL_DEFAULT
+                run['kind'] = 'construction'
+                runs.append(run)
+    for i in range(n):
+        run = gen_routing_run(rng.fork('w', i), mb, f'w{i}')
+        run['kind'] = 'workload'
+        runs.append(run)
+    return runs
+
+
+# ------------------------------------------------------------------------------------------------ C10
+def user_bound_events(mb, n_clients):
+    """(side, event index, client) of every event the user (or the component itself) must bind."""
+    out = []
+    for e in mb.events:
+        p = mb.ports[e['port']]
+        provides = p['dir'] == 'provides'
+        is_in = e['dir'] == 'in'
+        outer_handles = (provides and not is_in) or (not provides and is_in)
+        if outer_handles:
+            if p['sem'] == 'MC':
+                for k in range(n_clients):
+                    out.append((0, e['idx'], k))
+            else:
+                out.append((0, e['idx'], -1))
+        else:
+            if p['sem'] == 'INJ':
+                continue   # out-events of an injected port are bound by the component on its private copy
+            out.append((1, e['idx'], -1))
+    return out
+
+
+def gen_c10_runs(rng: Rng, mb, n):
+    """Exhaustive single-fault enumeration: the all-bound world (default and explicit parent) and one world per
+    event that is left unbound."""
+    origin = mb.cfgspec['origin']
+    n_clients = rng.between(0, 3) if mb.mc else 0
+    runs = []
+    for parent in (0, 1):
+        run = new_run(f'allbound-parent{parent}', origin)
+        run.update({'clients': n_clients, 'parent': parent, 'probes': 1, 'policy': POL_DEFAULT, 'kind': 'all-bound'})
+        runs.append(run)
+    for side, ev, cl in user_bound_events(mb, n_clients):
+        run = new_run(f'unbound-{side}-{ev}-{cl}', origin)
+        run.update({'clients': n_clients, 'parent': rng.below(2), 'probes': 1, 'policy': POL_DEFAULT, 'kind': 'one-unbound',
+                    'unbinds': [[side, ev, cl]]})
+        runs.append(run)
+    return runs
